@@ -525,6 +525,9 @@ def run_schedule(prog, schedule, max_cb=60, status0=None, plan=None):
         if not r.tick() and last <= n:
             break
         n += 1
+    # the configuration once nothing is ready any more, BEFORE the completing play/resume of finalize()
+    r.pre_final = dict(state=r.p.state.value, paused=bool(r.p.paused), n_calls=len(r.calls),
+                       futs_done=[f.done() for f in r.p._futs])
     r.finalize()
     return r
 
@@ -570,11 +573,16 @@ def ops_for(prog, alphabet):
     return ops
 
 
+def status0_for(sched):
+    """the status message the process starts with: set for half of the schedules, absent (None, the default) for the others"""
+    return None if sum(int(k) for k in sched) % 2 else 's0'
+
+
 def _work(args):
     prog, sched, monitors = args[:3]
     plan = args[3] if len(args) > 3 else None
     import harness.pm_monitors  # noqa: F401  (registers the monitors)
-    r = run_schedule(prog, sched, status0='s0', plan=plan)
+    r = run_schedule(prog, sched, status0=status0_for(sched), plan=plan)
     fails = []
     for m in monitors:
         fails.extend(MONITORS[m](r))
